@@ -285,3 +285,41 @@ def add_double_flatten(rnd, spec, info, ei=0):
     _set_map(s, out, parts, lo)
     s.tags = list(s.tags) + ["flatten", "double-flatten"]
     return s
+
+
+def gen_flatten3_discordant(rnd):
+    """Three (or four) ranks of A flattened together while B holds two or more
+    - but not all - of them, so B is reached with a multi-coordinate
+    getPayload(...):  Z[m, n] = A[j, k, m] * B[j, k, n], (J, K, M): [flatten()]."""
+    from .einsum import _acc
+    names = rnd.sample(["J", "K", "M", "P", "Q"], rnd.choice([3, 3, 4]))
+    x = "N"
+    a_ranks = list(names)
+    rnd.shuffle(a_ranks)
+    nb = rnd.randint(2, len(names) - 1)
+    b_held = rnd.sample(names, nb)
+    b_ranks = b_held + ([x] if rnd.random() < 0.8 else [])
+    rnd.shuffle(b_ranks)
+    out_from_flat = rnd.choice([r for r in names if r not in b_held] or names)
+    out_ranks = [out_from_flat] + ([x] if x in b_ranks else [])
+    rnd.shuffle(out_ranks)
+    decl = {"A": a_ranks, "B": b_ranks, "Z": out_ranks}
+    from ..spec import Term, Einsum as E
+    facs = [_acc("A", a_ranks), _acc("B", b_ranks)]
+    rnd.shuffle(facs)
+    e = E(_acc("Z", out_ranks), [Term("times", facs)])
+    tup = list(names)
+    rnd.shuffle(tup)
+    flat = "".join(tup)
+    parts = {"(%s)" % ", ".join(tup): ["flatten()"]}
+    lo = [flat] + ([x] if x in b_ranks else [])
+    if rnd.random() < 0.5:
+        lo.reverse()
+    ro = {}
+    for t, rs in decl.items():
+        q = list(rs)
+        rnd.shuffle(q)
+        ro[t] = q
+    s = Spec(decl, [e], rank_order=ro, partitioning={"Z": parts}, loop_order={"Z": lo},
+             tags=["flatten", "flatten-discordant", "flatten3-discordant-multi"])
+    return s
